@@ -174,6 +174,12 @@ def build(chk):
                 break
             if res[2][0][0] not in (2, 3):
                 continue
+            frame = res[2][0]
+            if frame[0] == 3 and int.from_bytes(frame[2:10], 'big') == 2:
+                # refusing the transfer that is IN FLIGHT is only consistent if the refusing peer also drops its
+                # half-received copy; the real peer endpoint did not refuse (the frame is injected), keeps waiting
+                # for the rest and never becomes idle: not a scenario of two conforming endpoints
+                continue
             res[0].meta.update(dict(quiescent=True, no_model=(fidx % 3 != 0)))
             res[0].kind = 'term-with-xfer-msg'
             recs.append(res[0])
